@@ -780,7 +780,11 @@ def _seg_case(c):
             lazy = hd.seg.segread(io.BytesIO(raw), lazy_frame_retrieval=True)
         except Exception as e:     # noqa
             return Err('write/read:' + type(e).__name__)
-        return [nframes, meta] + [_history(o, c, uids, nframes) for o in (seg, eager, lazy)]
+        # + what the model must also find: the input is valid, its specification holds for every object
+        # and cache state, and whether the input can be shown as one label map (decided here from the
+        # input alone, in the model by `combinable`)
+        return ([nframes, meta] + [_history(o, c, uids, nframes) for o in (seg, eager, lazy)] +
+                [True, True, all(st == 'ok' for st in _combine_status(c))])
     r_mem = _read(seg, c, uids)
     buf = io.BytesIO()
     try:
